@@ -169,7 +169,7 @@ Definition c04_single_key (k : str) (g : groups) : bool :=
 (* ---------- the check of one step ---------- *)
 (* finding codes: 1 result differs from the model; 2 post-state differs from the model;
    10 C01 frame not rectangular/named; 11 C01 Nrows disagrees; 12 C01 row alignment;
-   20 C02 another frame changed; 30 C20 panic; 31 C20 error changed state;
+   20 C02 another frame changed; 30 C20 panic; 31 C20 error changed state; 32 C20 invalid request accepted;
    40 C06 sort spec; 41 C19 shift spec *)
 Definition check_sort (O : oracles) (pre : pool) (i : nat) (by_ : list str) (asc : option bool)
            (mo : out val) (io : out val) (post : pool) : list nat :=
@@ -211,7 +211,9 @@ Definition check_step (O : oracles) (pre : pool) (s : stepobs) : list nat :=
                         | _, _ => []
                         end)
       | _, _, _ => []
-      end).
+      end)
+  (* C20: a request the model rejects was accepted (an invalid request not signalled as an error) *)
+  ++ (match mo, io with Err, Ok _ => [32%nat] | _, _ => [] end).
 
 (* first failing step of a history: (step index, codes) *)
 Fixpoint check_steps (O : oracles) (pre : pool) (ss : list stepobs) (k : nat) : option (nat * list nat) :=
